@@ -67,5 +67,41 @@ def chain(r1, r2, r3, i0, i1, i2, i3, u0, u1, u2, u3, p0, p1, p2, p3):
         shutil.rmtree(tmp, ignore_errors=True)
 
 
-def manifest(**kw):
-    return True  # (manifest scenarios are judged on the substrate only)
+def manifest(hext, mexists, mok, stub0, stub1, ext0, h1, p1ok):
+    """Real-file version of the manifest scenarios that do not involve stubs or broken chains:
+    records written by the real IH5MFRecord / IH5Record, then the newest sidecar is removed or edited."""
+    n = SEL.get("n", 2)
+    if stub0 or stub1 or (n == 2 and (h1 != 1 or not p1ok)):
+        return None  # judged on the substrate only
+    tmp = Path(tempfile.mkdtemp(prefix="vt_c04m_"))
+    try:
+        first = IH5MFRecord if (ext0 if n == 2 else hext) else IH5Record
+        r = first(tmp / "rec", "w")
+        r["a"] = 1
+        r.commit_patch()
+        r.close()
+        if n == 2:
+            second = IH5MFRecord if hext else IH5Record
+            r = second(tmp / "rec", "r+")
+            r["b"] = 2
+            r.commit_patch()
+            r.close()
+        newest = sorted(tmp.glob("rec*.ih5"), key=lambda f: (len(f.name), f.name))[-1]
+        side = Path(str(newest) + "mf.json")
+        if hext:
+            if not mexists:
+                side.unlink()
+            elif not mok:
+                side.write_bytes(side.read_bytes().replace(b'"manifest_uuid"', b'"manifest_uuid" '))
+        try:
+            rec = IH5MFRecord(tmp / "rec", "r")
+            rec.close()
+            got = True
+        except ValueError:
+            got = False
+        exp = not (hext and not (mexists and mok))
+        if got != exp:
+            raise AssertionError(f"MISMATCH: manifest present={mexists} intact={mok}: record opened={got}, expected {exp}")
+        return True
+    finally:
+        shutil.rmtree(tmp, ignore_errors=True)
